@@ -73,8 +73,13 @@ def outcomes(chk) -> List[Dict[str, Any]]:
         def gran(*a, **k):
             return "daily"   # the daily route: sub-daily / daily reads (billing granularity raises in the analysed code)
 
-        def clean(series, granularity, warnings, *a, **k):
-            return Sym(w, "call", sym_root(w, "clean_billing_daily_data"), (series, granularity), ())
+        cbd = chk.repo.func("opendsm.eemeter.common.data_processor_utilities", "clean_billing_daily_data")
+
+        def clean(*a, **k):
+            from rules.common import bind_like
+            vals = bind_like(cbd, a, k)
+            ps = [p_ for p_ in cbd.params][:2]
+            return Sym(w, "call", sym_root(w, "clean_billing_daily_data"), (vals.get(ps[0]), vals.get(ps[1])), ())
         it = Interp(step_limit=200_000)
         env = ModuleEnv(chk.repo, fi.module, it, {"pd": sym_root(w, "pd"), "np": sym_root(w, "np"), "compute_minimum_granularity": StubCall(gran),
                                                   "clean_billing_daily_data": StubCall(clean)})
